@@ -349,12 +349,12 @@ Proof.
   rewrite (H a (or_introl eq_refl)). cbn [andb]. apply IHl. intros; apply H; right; assumption.
 Qed.
 
-Lemma cnt_note_events : forall sel cs0 v k tm tm' ns,
+Lemma cnt_note_events : forall sel cs0 v k tm ns,
   (forall e, e_kind e = k -> sel e = true) ->
   cnt_ev sel cs0 v (note_events k tm ns) =
-  length (filter (fun p => note_eqb (cell_at cs0 (fst p)) v) (filter (fun p => negb (n_drum (snd p))) (indexed ns))) /\ tm' = tm' :> (note -> Z).
+  length (filter (fun p => note_eqb (cell_at cs0 (fst p)) v) (filter (fun p => negb (n_drum (snd p))) (indexed ns))).
 Proof.
-  intros. split; [|reflexivity]. unfold note_events, cnt_ev.
+  intros. unfold note_events, cnt_ev.
   induction (filter (fun p => negb (n_drum (snd p))) (indexed ns)); cbn [map filter]; auto.
   cbn [e_ref]. rewrite H by reflexivity. cbn [andb].
   destruct (note_eqb _ v); cbn [length]; congruence.
@@ -364,8 +364,8 @@ Lemma build_events_balanced : forall ctl ns ccs cs0 v,
   cnt_ev is_on_ev cs0 v (build_events ctl ns ccs) = cnt_ev is_off_ev cs0 v (build_events ctl ns ccs).
 Proof.
   intros. unfold build_events. rewrite !cnt_ev_app.
-  rewrite (proj1 (cnt_note_events is_on_ev cs0 v KNoteOn n_start n_start ns ltac:(intros e E; unfold is_on_ev; rewrite E; reflexivity))).
-  rewrite (proj1 (cnt_note_events is_off_ev cs0 v KNoteOff n_end n_end ns ltac:(intros e E; unfold is_off_ev; rewrite E; reflexivity))).
+  rewrite (cnt_note_events is_on_ev cs0 v KNoteOn n_start ns ltac:(intros e E; unfold is_on_ev; rewrite E; reflexivity)).
+  rewrite (cnt_note_events is_off_ev cs0 v KNoteOff n_end ns ltac:(intros e E; unfold is_off_ev; rewrite E; reflexivity)).
   rewrite (cnt_ev_none is_on_ev cs0 v (note_events KNoteOff n_end ns)).
   2:{ intros e H. apply note_events_In in H. destruct H as [n [_ [_ ->]]]. reflexivity. }
   rewrite (cnt_ev_none is_off_ev cs0 v (note_events KNoteOn n_start ns)).
@@ -375,4 +375,106 @@ Proof.
   rewrite (cnt_ev_none is_off_ev cs0 v (cc_events ctl ccs)).
   2:{ intros e H. apply cc_events_kind in H. unfold is_off_ev. destruct H as [-> | ->]; reflexivity. }
   lia.
+Qed.
+
+(** * Loops leave the cells and list entries of other instruments alone *)
+Definition iof (cs : list cell) (a : nat) : Z := n_instr (cell_at cs a).
+
+Lemma iof_sim : forall cs cs' a, sim cs cs' -> iof cs' a = iof cs a.
+Proof. intros. unfold iof. apply strip_fields. apply sim_nth. exact H. Qed.
+
+Lemma kill_first_nth_neq : forall v cs j,
+  c_n (nth j cs dummy_cell) <> v -> nth j (kill_first v cs) dummy_cell = nth j cs dummy_cell.
+Proof.
+  induction cs; intros; cbn [kill_first]; auto.
+  destruct (c_alive a && note_eqb (c_n a) v) eqn:E.
+  - destruct j; cbn [nth] in *; auto.
+    apply andb_true_iff in E. destruct E as [_ E]. apply note_eqb_eq in E. contradiction.
+  - destruct j; cbn [nth] in *; auto.
+Qed.
+
+Lemma set_end_at_nth_neq : forall cs a j t, a <> j ->
+  nth j (set_end_at cs a t) dummy_cell = nth j cs dummy_cell.
+Proof. intros. apply upd_nth_neq. exact H. Qed.
+
+Lemma off_loop_noop : forall i t act cs tot,
+  (forall a, In a act -> n_instr (cell_at cs a) = i -> t <= n_end (cell_at cs a)) ->
+  off_loop i t act cs tot = (act, cs, tot).
+Proof.
+  induction act; intros; cbn [off_loop]; auto.
+  assert (R : off_loop i t act cs tot = (act, cs, tot))
+    by (apply IHact; intros; apply H; [right|]; assumption).
+  destruct (n_instr (cell_at cs a) =? i) eqn:E; [|rewrite R; reflexivity].
+  destruct (n_end (cell_at cs a) <? t) eqn:F; [|rewrite R; reflexivity].
+  specialize (H a (or_introl eq_refl)). lia.
+Qed.
+
+Lemma off_loop_other : forall (q : nat -> bool) i t act cs tot,
+  (forall a, iof cs a = i -> q a = false) ->
+  (forall j, iof cs j <> i ->
+     nth j (snd (fst (off_loop i t act cs tot))) dummy_cell = nth j cs dummy_cell) /\
+  filter q (fst (fst (off_loop i t act cs tot))) = filter q act.
+Proof.
+  induction act; intros; cbn [off_loop]; [split; auto|].
+  fold (iof cs a). destruct (iof cs a =? i) eqn:E.
+  - destruct (n_end (cell_at cs a) <? t).
+    + destruct (IHact (set_end_at cs a t) (if tot <? t then t else tot)) as [A B].
+      { intros b Hb. apply H. rewrite <- Hb. symmetry. apply iof_sim. apply sim_set_end_at. }
+      split.
+      * intros j Hj. rewrite A.
+        -- apply set_end_at_nth_neq. intros ->. lia.
+        -- rewrite (iof_sim cs); [exact Hj | apply sim_set_end_at].
+      * rewrite B. cbn [filter]. rewrite H by lia. reflexivity.
+    + destruct (IHact cs tot H) as [A B]. destruct (off_loop i t act cs tot) as [[k c] o]. cbn [fst snd] in *.
+      split; [exact A|]. cbn [filter]. rewrite B. reflexivity.
+  - destruct (IHact cs tot H) as [A B]. destruct (off_loop i t act cs tot) as [[k c] o]. cbn [fst snd] in *.
+    split; [exact A|]. cbn [filter]. rewrite B. reflexivity.
+Qed.
+
+Lemma on_loop_other : forall (q : nat -> bool) i p t act cs,
+  (forall a, iof cs a = i -> q a = false) ->
+  (forall j, iof cs j <> i -> nth j (snd (on_loop i p t act cs)) dummy_cell = nth j cs dummy_cell) /\
+  filter q (fst (on_loop i p t act cs)) = filter q act.
+Proof.
+  induction act; intros; cbn [on_loop]; [split; auto|].
+  fold (iof cs a). destruct (iof cs a =? i) eqn:E.
+  - destruct (n_pitch (cell_at cs a) =? p).
+    + set (cs1 := set_end_at cs a t).
+      set (cs2 := if n_start (cell_at cs a) =? t then kill_first (cell_at cs1 a) cs1 else cs1).
+      assert (S1 : sim cs cs1) by apply sim_set_end_at.
+      assert (S2 : sim cs cs2).
+      { unfold cs2. destruct (_ =? t); [eapply sim_trans; [exact S1 | apply sim_kill_first] | exact S1]. }
+      destruct (IHact cs2) as [A B].
+      { intros b Hb. apply H. rewrite <- Hb. symmetry. apply iof_sim. exact S2. }
+      split.
+      * intros j Hj. rewrite A by (rewrite (iof_sim cs); assumption).
+        assert (N1 : nth j cs1 dummy_cell = nth j cs dummy_cell).
+        { apply set_end_at_nth_neq. intros ->. lia. }
+        unfold cs2. destruct (_ =? t); [|exact N1].
+        rewrite kill_first_nth_neq; [exact N1|].
+        intros C. apply Hj. transitivity (iof cs1 a); [|rewrite (iof_sim cs) by exact S1; lia].
+        rewrite <- (iof_sim cs cs1 j S1). unfold iof, cell_at. rewrite C. reflexivity.
+      * rewrite B. cbn [filter]. rewrite H by lia. reflexivity.
+    + destruct (IHact cs H) as [A B]. destruct (on_loop i p t act cs) as [k c]. cbn [fst snd] in *.
+      split; [exact A|]. cbn [filter]. rewrite B. reflexivity.
+  - destruct (IHact cs H) as [A B]. destruct (on_loop i p t act cs) as [k c]. cbn [fst snd] in *.
+    split; [exact A|]. cbn [filter]. rewrite B. reflexivity.
+Qed.
+
+Lemma close_other : forall t act cs tot j,
+  ~ In j act -> nth j (fst (close t act cs tot)) dummy_cell = nth j cs dummy_cell.
+Proof.
+  induction act; intros; cbn [close]; auto.
+  rewrite IHact by (intros C; apply H; right; exact C).
+  apply set_end_at_nth_neq. intros ->. apply H. left. reflexivity.
+Qed.
+
+Lemma close_nil_total : forall t cs tot, close t [] cs tot = (cs, tot).
+Proof. reflexivity. Qed.
+
+Lemma is_sus_off_other : forall i j l, is_sus i l = false -> is_sus i (sus_off j l) = false.
+Proof.
+  unfold is_sus, sus_off. induction l; cbn [filter existsb]; intros; auto.
+  apply orb_false_iff in H. destruct H as [A B].
+  destruct (negb (a =? j)); cbn [existsb]; rewrite ?A; auto.
 Qed.
